@@ -19,10 +19,11 @@ chunk = KaniUnit("c12_chunk", APP,
 chunk.native_witnesses = ['c12_wit_empty_batch', 'c12_wit_rejected_only_batches', 'c12_wit_same_origin_and_destination', 'c12_wit_inject_plugin_on_non_object_queries', 'c12_wit_grid_search_empty_array', 'c12_wit_ill_typed_vertex_fields', 'c12_wit_wrong_type_query_is_echoed']
 msv = VerusUnit("c17_multiset", "c17_multiset", rlimit=60, paired_kani=(msk, []))
 gr = VerusUnit("c15_graph", "c15_graph", rlimit=60)
-UNITS = [msv, gr, msk, chunk]
+rn = VerusUnit("c06_run", "c06_run", rlimit=30, paired_kani=(chunk, []))
+UNITS = [msv, gr, rn, msk, chunk]
 EXPLANATION = ("whole-application panic freedom / boundedness is outside both back ends (rayon, serde_json, plugins, files). Decided: kernels the statement names -- MultiSet (Verus, any number of axes: "
                "the iterator is the mixed-radix successor and stops after the last tuple; expression-level obligation for `len - 1`), the chunk-size expression of CompassApp::run against rayon's par_chunks(0) panic, "
                "Graph::out_edges_iter / in_edges_iter answer a vertex id outside the graph with no edges instead of an index panic (Verus, unit c15_graph), "
-               "TerminationModel panic freedom (C10), Yen's spur range and no-progress loop (C13, fixed)")
+               "TerminationModel panic freedom (C10), Yen's spur range and no-progress loop (C13, fixed); CompassApp::run (unit c06_run, Verus on the verbatim function; the three rayon / itertools pipelines -- the input-plugin stage and the two batch runners -- are opaque helpers whose contracts ARE the assumption about rayon: every element processed exactly once, order kept): one response per query reaches the caller -- every rejected query's error response and, with responses kept in memory, one response per query that input processing made of the accepted ones -- and the response writer is asked to write EVERY response of the batch exactly once, rejected and run, under both persistence policies, with the run-time override of the policy honoured; the early return for a batch without runnable queries still returns and records the rejected ones")
 NOT_DECIDED = "everything between these kernels: plugins over serde_json values (inject, grid search mapping, json_array_flatten), a panic in a rayon worker through any path not listed, memory / wall-clock bounds of a batch"
-ASSUMPTIONS = ["rayon::par_chunks(n) panics iff n == 0 (documented)", "assumed helper contracts of the MultiSet unit (gather / zero prefix / final_pos)"]
+ASSUMPTIONS = ["rayon (unit c06_run): par_chunks / par_iter with map + collect / unzip process every element exactly once and keep the order of the input -- stated as the contracts of three opaque helpers", "rayon::par_chunks(n) panics iff n == 0 (documented)", "assumed helper contracts of the MultiSet unit (gather / zero prefix / final_pos)"]
